@@ -170,7 +170,9 @@ def run(case):
 
         shape, fail = case["shape"], case["fail"]
         ntot = sum(shape)
-        for (custom, defaults, use_x0, fam) in itertools.product((False, True), (True, False), (False, True), ("hexahedron", "quad-ps", "two-body")):
+        # (custom = False, True, False: jobs relying on the defaults are also evaluated AFTER jobs with user-defined point / cell
+        #  data in the same process)
+        for (custom, defaults, use_x0, fam) in itertools.product((False, True, False), (True, False), (False, True), ("hexahedron", "quad-ps", "two-body")):
             bodies = None
             if fam == "two-body":
                 # two bodies on the sub-meshes of a merged mesh container, solved through a top-level field x0 on the
